@@ -50,4 +50,27 @@ CHECKS = {
              "shards": {"quick": 1, "thorough": 16}, "timeout": {"quick": 600, "thorough": 7200}},
         ],
     },
+    "C02": {
+        "rule": ("(1) exhaustive small scope: every list of N routes over 48 route atoms (8 matcher structures incl. and/or/not and match-all x 6 handler chains "
+                 "incl. terminal, non-terminal and two subroute forms) x every stream over {a,b} up to length L x every segmentation x both end modes "
+                 "(client closes / client silent until the virtual-time deadline); quick N=2 L=3 plus N=3 L=3 over a reduced alphabet of 15 atoms, thorough N=3 L=4 over all 48. (2) rapid: lists of <=4 routes, nesting <=2, "
+                 "1-3 matchers per set, `not`, peek/read matchers, streams <=64 over {a,b,c}. Oracle: validity predicate over the recorded trace. "
+                 "Non-trivial = >=2 routes, some route needs bytes before it can be decided, and one of: subroute, `not`, fallback ran, continuation after a "
+                 "non-terminal route; distinct = distinct (route list, segmentation, end mode)."),
+        "exhaustive": {"quick": False, "thorough": False},
+        "assumptions": ["harness matchers are pure monotone functions of the available bytes, so the verdict a route had when it was invoked is recomputed from the recorded available bytes",
+                        "evaluation order of several matchers inside one set is unspecified (JSON map): such sets are judged three-valued with ambiguity, never guessed",
+                        "a connection that ends (EOF/timeout) while a route is undecided is not required to reach the fallback"],
+        "min_classes": {"quick": {"C02/fallback": 5000, "C02/subroute": 20000, "C02/continued-after-non-terminal": 5000, "C02/random": 2000}},
+        "runs": [
+            {"name": "exhaustive", "pkg": "./c02", "run": "TestExhaustiveSmallScope",
+             "env": {"VERIF_C02_ROUTES": {"quick": 2, "thorough": 3}, "VERIF_C02_STREAM": {"quick": 3, "thorough": 4}},
+             "shards": {"quick": 4, "thorough": 16}, "timeout": {"quick": 600, "thorough": 7200}},
+            {"name": "exhaustive3", "pkg": "./c02", "run": "TestExhaustiveSmallScope", "tiers": ("quick",),
+             "env": {"VERIF_C02_ROUTES": 3, "VERIF_C02_STREAM": 3, "VERIF_C02_ATOMS": "reduced"},
+             "shards": {"quick": 4}, "timeout": {"quick": 600}},
+            {"name": "random", "pkg": "./c02", "run": "TestRandomInstances|TestReplay", "rapid_checks": {"quick": 6000, "thorough": 400000},
+             "shards": {"quick": 1, "thorough": 16}, "timeout": {"quick": 600, "thorough": 7200}},
+        ],
+    },
 }
